@@ -1,9 +1,12 @@
 import PytezosModel.Proofs.C33
+import PytezosModel.Proofs.HashText
+import PytezosModel.Michelson.ConstantsKey
 /-! C33 — `ExecutionContext.resolve_global_constants` replaces every reference `constant "h"` (also through other
 constants) by the registered expression and leaves everything else, annotations included, unchanged; it fails on an
 unknown hash.  All registries whose reference graph is acyclic (`Spec.Constants.Acyclic`: a topological numbering
 below the registry size exists), all scripts (structural induction), all reference depths (induction on the rank).
-The key under which `register_global_constant` files an expression is recomputed independently by the harness. -/
+The key under which `register_global_constant` files an expression (`expr…` text of the hash of the forged Micheline) is
+modelled in `Michelson/ConstantsKey.lean` and treated in the last section (`register_key_text`, `register_key_concrete`). -/
 namespace C33
 open Impl.Constants Spec.Constants Proofs.C33
 
@@ -114,5 +117,97 @@ example : Acyclic regEx := by
   · refine ⟨by decide, ?_⟩
     intro h' hh' _
     simp [refs, refsList] at hh'
+
+/-! ### the registration key: `expr…` text of the hash of the forged Micheline
+
+`Impl.Constants.registerKeyChars cks H e` mirrors `forge_script_expr(forge_micheline(e))`.  First for every 4-byte
+checksum function and every 32-byte hash function, then for the executable double SHA-256 / BLAKE2b-256 the driver runs.
+The known answers are the Tezos documentation example (`999`) and the constants of
+tests/unit_tests/test_michelson/test_repl/test_constants.py, evaluated by the kernel. -/
+section Key
+open HashText Impl.Encoding
+
+/-- the `expr` row of the regenerated `base58_encodings` table -/
+def exprRow : Row := ⟨[101, 120, 112, 114], 54, [13, 44, 64, 27], 32⟩
+
+/-- closed facts about that row (kernel evaluation over the regenerated C09 table), see `HashText.rowFacts` -/
+theorem expr_row_ok : rowFacts exprRow = true := by decide +kernel
+
+/-- `register_global_constant` is `global_constants[forge_script_expr(forge_micheline(e))] = e`, prefix `expr` -/
+theorem key_source : (Generated.C33.registerKeyIsScriptExprOfForged, Generated.C33.scriptExprPrefix) = (true, some "expr") := by
+  decide
+
+variable (cks : List Nat → List Nat) (hck : CksOk cks) (H : List Nat → List Nat) (hH : HashOk H)
+
+include hck hH in
+/-- every expression that `forge_micheline` can write is filed under a 54-character `expr…` text, which
+`base58_decode` maps back to the hash of the forged bytes (no `0x05` prefix in front of them) -/
+theorem register_key_text (e : Mich) (b : List Nat) (hb : forgeMich e = some b) :
+    ∃ s, registerKeyChars cks H e = .ok s ∧ s.length = 54 ∧ [101, 120, 112, 114] <+: s ∧
+      base58Decode cks s = .ok (H b) := by
+  obtain ⟨s, hs, hl, hp, hd⟩ := text_of_payload cks hck exprRow expr_row_ok (H b) (hH.len b) (hH.bytes b)
+  refine ⟨s, ?_, hl, hp, hd⟩
+  have hs' : base58Encode cks (H b) [101, 120, 112, 114] = .ok s := hs
+  have hc : chars "expr" = [101, 120, 112, 114] := by decide
+  simp [registerKeyChars, Generated.C33.registerKeyIsScriptExprOfForged, Generated.C33.scriptExprPrefix, hb, hc, hs']
+
+/-- an expression `forge_micheline` cannot write is not registered -/
+theorem register_key_forge_error (e : Mich) (hb : forgeMich e = none) : registerKeyChars cks H e = .error .forge := by
+  simp [registerKeyChars, Generated.C33.registerKeyIsScriptExprOfForged, Generated.C33.scriptExprPrefix, hb]
+
+/-- `register_global_constant` then a lookup of the key finds the expression as registered -/
+theorem register_then_lookup (reg reg' : Registry) (e : Mich) (h : register cks H reg e = .ok reg') :
+    ∃ k, registerKey cks H e = .ok k ∧ reg'.lookup k = some e := by
+  unfold register at h
+  split at h
+  next k hk =>
+    injection h with h
+    subst h
+    exact ⟨k, hk, by simp [List.lookup]⟩
+  · simp at h
+
+/-- with the executable double SHA-256 and BLAKE2b-256 -/
+theorem register_key_concrete (e : Mich) (b : List Nat) (hb : forgeMich e = some b) :
+    ∃ s, registerKeyChars RealHash.cks RealHash.blake e = .ok s ∧ s.length = 54 ∧ [101, 120, 112, 114] <+: s ∧
+      base58Decode RealHash.cks s = .ok (RealHash.blake b) :=
+  register_key_text RealHash.cks cks_ok RealHash.blake blake_ok e b hb
+
+end Key
+
+/-- the key computation in three steps (forge, hash, Base58Check), so that a known answer can be evaluated by the
+kernel one step at a time -/
+theorem register_key_steps (cks : List Nat → List Nat) (H : List Nat → List Nat) (e : Mich) (b d s : List Nat)
+    (hf : forgeMich e = some b) (hh : H b = d)
+    (he : (Impl.Encoding.base58Encode cks d [101, 120, 112, 114]).toOption = some s) :
+    (registerKeyChars cks H e).toOption = some s := by
+  have hc : chars "expr" = [101, 120, 112, 114] := by decide
+  simp only [registerKeyChars, Generated.C33.registerKeyIsScriptExprOfForged, Generated.C33.scriptExprPrefix, hf, hh, hc,
+    Bool.not_true, Bool.false_eq_true, if_false]
+  cases hb : Impl.Encoding.base58Encode cks d [101, 120, 112, 114] with
+  | error err => rw [hb] at he; simp [Except.toOption] at he
+  | ok s' => rw [hb] at he; simpa [Except.toOption] using he
+
+-- Tezos documentation (global constants): `999`, forged 00 a7 0f (no PACK prefix), BLAKE2b-256 74e7b7c4…1fffcc, is registered
+-- as expruQN5r2umbZVHy6WynYM8f71F8zS4AERz9bugF8UkPBEqrHLuU8
+set_option maxRecDepth 4000 in
+example : (registerKeyChars RealHash.cks RealHash.blake (.int 999)).toOption =
+    some [101, 120, 112, 114, 117, 81, 78, 53, 114, 50, 117, 109, 98, 90, 86, 72, 121, 54, 87, 121, 110, 89, 77, 56, 102, 55, 49,
+      70, 56, 122, 83, 52, 65, 69, 82, 122, 57, 98, 117, 103, 70, 56, 85, 107, 80, 66, 69, 113, 114, 72, 76, 117, 85, 56] :=
+  register_key_steps RealHash.cks RealHash.blake (.int 999) [0, 167, 15]
+    [116, 231, 183, 196, 107, 200, 76, 16, 171, 25, 31, 114, 104, 15, 14, 152, 189, 211, 117, 127, 4, 27, 241, 219, 178, 107,
+      141, 90, 231, 31, 255, 204]
+    _ (by decide +kernel) (by decide +kernel) (by decide +kernel)
+-- test_constants.py: `unit` (forged 03 6c) is exprvKFFbc7SnPjkPZgyhaHewQhmrouNjNae3DpsQ8KuADn9i2WuJ8
+set_option maxRecDepth 4000 in
+example : (registerKeyChars RealHash.cks RealHash.blake (.prim "unit" [] [])).toOption =
+    some [101, 120, 112, 114, 118, 75, 70, 70, 98, 99, 55, 83, 110, 80, 106, 107, 80, 90, 103, 121, 104, 97, 72, 101, 119, 81, 104,
+      109, 114, 111, 117, 78, 106, 78, 97, 101, 51, 68, 112, 115, 81, 56, 75, 117, 65, 68, 110, 57, 105, 50, 87, 117, 74, 56] :=
+  register_key_steps RealHash.cks RealHash.blake (.prim "unit" [] []) [3, 108]
+    [236, 251, 13, 93, 219, 84, 54, 17, 49, 197, 27, 80, 159, 176, 248, 119, 138, 231, 74, 138, 125, 179, 48, 36, 53, 175,
+      106, 135, 249, 27, 129, 176]
+    _ (by decide +kernel) (by decide +kernel) (by decide +kernel)
+-- an unknown primitive cannot be forged, hence not registered
+example : (match registerKeyChars RealHash.cks RealHash.blake (.prim "no_such_prim" [] []) with
+    | .error e => some e | .ok _ => none) = some KeyErr.forge := by decide +kernel
 
 end C33
